@@ -807,13 +807,12 @@ def judge(ctx, cfg, req, resp, opens, fault, stack):
         if p == v.abs:
             continue         # the directory itself (remainder '' or '.') is not outside
         if p.startswith(TREE.root + '/') or p == TREE.root:
-            rel = p[len(TREE.root) + 1:]
             where = 'parent' if (v.abs + '/').startswith(p + '/') else (
                 'sibling_prefix' if p.startswith(v.abs) else 'outside_tree')
         else:
-            rel, where = p, 'external'
+            where = 'external'
         ctx.violate('static.containment', '%s: open(%r) is outside the configured directory' % (
-            what, show(rel)), where=where, **sig)
+            what, show(p)), where=where, **sig)
         break
 
     rem = remainder_of(cfg, req.path)
@@ -1025,10 +1024,9 @@ def run(ctx):
     if reads >= 3:
         ctx.probe('multi_read_body')
     fk = state['fault']
-    root = TREE.root + '/'
     ctx.event('req', stack, req.method, req.shown, req.range_val, req.ims_val)
     ctx.event('io', ''.join(ctl.trace), 'fault', fk, 'opens',
-              [p[len(root):] if p.startswith(root) else 'EXT:' + p for p in opens])
+              [show(p) for p in opens])
     ctx.event('resp', resp.status, resp.header('content-range'), resp.header('content-length'),
               resp.body.hex()[:160], type(resp.raised).__name__ if resp.raised is not None else '-')
     judge(ctx, cfg, req, resp, opens, fk, stack)
